@@ -179,9 +179,57 @@ def execute_threads(ctx, case):
 _execute_single = execute
 
 
+# ---- injectivity beyond the enumerated lengths: pairs of near-identical untagged names built from the words
+# the encoding treats specially
+WORDS = ['_tagged', '__tagged', '___tagged', 'tagged', '_', '__', '_DOT_', 'DOT', 'a', 'b', 'a_b', 'a_DOT_b', 'wsp', 'a-b',
+         '~', '=', 'é', '\\', '-', '000', 'a=b', '_tagged_', 'x' * 40]
+
+
+@st.composite
+def pair_cases(draw):
+  segs = draw(st.lists(st.sampled_from(WORDS), min_size=1, max_size=5))
+  other = list(segs)
+  how = draw(st.integers(0, 6))
+  i = draw(st.integers(0, len(segs) - 1))
+  if how == 0:
+    other[i] = '_' + other[i]
+  elif how == 1 and other[i].startswith('_') and len(other[i]) > 1:
+    other[i] = other[i][1:]
+  elif how == 2 and len(other) > 1:
+    j = draw(st.integers(0, len(other) - 2))
+    other[j:j + 2] = [other[j] + draw(st.sampled_from(['_DOT_', '_', '-', '__'])) + other[j + 1]]
+  elif how == 3:
+    other[i] = draw(st.sampled_from(WORDS))
+  elif how == 4:
+    other = other[::-1]
+  elif how == 5:
+    other = other + [draw(st.sampled_from(WORDS))]
+  else:
+    other = draw(st.lists(st.sampled_from(WORDS), min_size=1, max_size=5))
+  return {'pair': ['.'.join(segs), '.'.join(other)], 'hash_filenames': draw(st.booleans()),
+          'backend': draw(st.sampled_from(['whisper', 'ceres']))}
+
+
+def execute_pair(ctx, case):
+  n1, n2 = case['pair']
+  ps = []
+  for n in (n1, n2):
+    p = check_name(ctx, n, case['hash_filenames'], case['backend'])
+    if p is None:
+      return
+    ps.append(p)
+  if n1 != n2 and ps[0] == ps[1]:
+    ctx.fail('C14:path-collision', 'distinct untagged names %r and %r map to the same path %r (%s backend)' % (
+      n1, n2, ps[0], case['backend']), case, 'injective')
+    return
+  ctx.note(case, nontrivial=n1 != n2, classes=['pair of near-identical names', case['backend']], key=[n1, n2, case['backend']])
+
+
 def execute(ctx, case):  # noqa: dispatch
   if 'threads' in case:
     return execute_threads(ctx, case)
+  if 'pair' in case:
+    return execute_pair(ctx, case)
   return _execute_single(ctx, case)
 
 
@@ -223,3 +271,4 @@ def run(ctx):
   run_given(ctx, cases, execute, ctx.scale(2500, 8000), salt=1)
   sweep_sandbox(ctx, {'note': 'final sweep of the sandbox after all create calls'})
   run_given(ctx, thread_cases(), execute, ctx.scale(400, 2500), salt=2)
+  run_given(ctx, pair_cases(), execute, ctx.scale(2500, 12000), salt=3)
